@@ -285,9 +285,12 @@ def read_env(src, expr, skip_envs=(), tolerance=0, mode=MODE_NON_MATH):
     contents = []
     while src.hasNext():
         if src.peek().category == TC.Escape:
-            name, args = make_read_peek(read_command)(
-                src, skip=1, tolerance=tolerance, mode=mode)
+            # look ahead at the name only; arguments are read just for \end
+            name, _ = make_read_peek(read_command)(
+                src, 0, 0, skip=1, tolerance=tolerance, mode=mode)
             if name == 'end':
+                _, args = make_read_peek(read_command)(
+                    src, skip=1, tolerance=tolerance, mode=mode)
                 break
         contents.append(read_expr(src, skip_envs=skip_envs, tolerance=tolerance, mode=mode))
     error = not src.hasNext() or not args or \
